@@ -170,7 +170,7 @@ def _fix_bodies(nodes):
 
 
 @st.composite
-def cases(draw, cfg: G.GenCfg, ticks: int, append_1_in: int = 5):
+def cases(draw, cfg: G.GenCfg, ticks: int, append_1_in: int = 5, keep_nested: bool = True):
     append = draw(st.integers(1, append_1_in)) == 1
     if append:
         # the append follow-up is defined for interrupt-free methods only (see append_position)
@@ -180,7 +180,7 @@ def cases(draw, cfg: G.GenCfg, ticks: int, append_1_in: int = 5):
     else:
         tree = draw(program(cfg))
     excluded = 0
-    if EXCLUDE_KNOWN_INTERRUPT_IN_REPEATED_BODY and draw(st.integers(1, KEEP_NESTED_1_IN)) != 1:
+    if EXCLUDE_KNOWN_INTERRUPT_IN_REPEATED_BODY and (draw(st.integers(1, KEEP_NESTED_1_IN)) != 1 or not keep_nested):
         excluded = _strip_nested_interrupts(tree["body"], False)
         _fix_bodies(tree["body"])
     traj = draw(G.trajectory(ticks, max_changes=8))
@@ -599,6 +599,8 @@ def analyse(tr: Trace):
     inv_closed: set = set()            # (Alarm / Macro line, invocation number) of invocations that are over
     # S6 -- open invocations of repeating / interrupt bodies: container line -> dict(ei0, tick, pc, cut, by)
     inv_open: dict = {}
+    call_created: dict = {}            # instance id of a Call macro visit -> (event index, tick) of its `created` state
+    call_started: set = set()          # instance ids of Call macro visits that got a `started` state
     last_block_end_tick = [None]
     cut_macros: set = set()            # macros with a call that was cut short by a block end (class only)
 
@@ -765,6 +767,7 @@ def analyse(tr: Trace):
                 on_visit(node, ei, tick)
                 if kind == "callmacro":
                     m = prog.macro.get(prog.byid[node].payload)
+                    call_created[inst] = (ei, tick)
                     oc = cx.open_calls.setdefault(m, set())
                     if oc:
                         cx.concurrent.add(m)
@@ -782,6 +785,7 @@ def analyse(tr: Trace):
                     continue
                 if kind == "callmacro":
                     m = prog.macro.get(prog.byid[node].payload)
+                    call_started.add(inst)
                     on_start("L", node, ei, tick, inst)
                     cx.counter[m] = cx.counter.get(m, 0) + 1
                     cx.started_calls[m] = cx.started_calls.get(m, 0) + 1
@@ -822,6 +826,23 @@ def analyse(tr: Trace):
                         cx.started_calls[m] -= 1
                     inv_closed.add((m, cx.counter.get(m, 0)))
                     inv_end(m, ei, tick, by=node)
+                    c0 = call_created.pop(inst, None)
+                    if inst not in call_started and c0 is not None and m not in cx.concurrent and not cx.weak(node) \
+                            and ended_block_of(node) is None and not any(x[1] == "block_end" for x in tr.events[c0[0]:ei]) \
+                            and not (last_block_end_tick[0] is not None and last_block_end_tick[0] >= c0[1] - 1):
+                        # S6 for a call that never got a `started` state: no other call of the macro was in progress that it
+                        # could have joined, no block ended -- yet the call is over; it must have started the body lines
+                        body = [c for c in prog.children.get(m, []) if prog.kind(c) not in WS]
+                        ran = {x[2] for x in tr.events[c0[0]:ei] if x[1] == "rt" and x[3] == "started"} | \
+                              {cx.inst2node.get(x[4]) for x in tr.events[c0[0]:ei] if x[1] == "sched"} | \
+                              {x[3] for x in tr.events[c0[0]:ei] if x[1] == "scope_start"} | \
+                              {prog.block.get(x[2]) for x in tr.events[c0[0]:ei] if x[1] == "block_start"}
+                        missing = [c for c in body if c not in ran]
+                        if missing:
+                            add(v2, "invocation-skipped-line:macro:call-not-started",
+                                "[L] %s (tick %d..%d) completed without a started run-log state and without starting the macro's body "
+                                "line(s) %s; no other call of the macro was in progress and no block ended" % (txt(node), c0[1], tick, [txt(c) for c in missing]))
+                    call_started.discard(inst)
                 if kind in ("endblock", "endblocks") and end_window is not None and end_window[0] == node:
                     w = end_window
                     end_window = None
